@@ -248,6 +248,32 @@ def run_c07_abort(sc):
                     if not fired and was_exited_by_abort:
                         vios.append(Violation("C07", "rollback-timer-not-rearmed", sig,
                                               f"{sid} was exited and restored by the rollback at {e['t']}us but its after {dkey} never fired by {end_t}us"))
+    # general liveness: every state active at the end that owns an unguarded after must have had its expiry delivered
+    # since it was last (re-)armed (entry, or a rollback that restored it) - whether or not its own exit action had run
+    # when the transition aborted (the whole exit set is cancelled up front and must be re-armed)
+    if fin is not None and fin["status"] == "running" and errors:
+        end_t = [x for x in w.obs if x[4] == "final"][-1][T]
+        last_rb = max(e["t"] for e in errors)
+        for sid in fin["cfg"]:
+            n = m.node(sid)
+            if n is None or not n.after:
+                continue
+            acts = w.activations.get(sid, [])
+            t_in = acts[-1].t_in if acts else 0
+            seq_in = acts[-1].seq_in if acts else 0
+            for dkey, cands in n.after.items():
+                try:
+                    d_us = int(dkey) * 1000
+                except ValueError:
+                    continue
+                if any(c.guard is not None for c in cands):
+                    continue
+                if max(t_in, last_rb) + d_us + 200_000 >= end_t:
+                    continue
+                got = any(x[K] == "recv" and x[4] == root and x[5] == f"after.{dkey}.{sid}" and x[SEQ] > seq_in for x in res.trace)
+                if not got:
+                    vios.append(Violation("C07", "timer-dead-after-rollback", sig0,
+                                          f"{sid} active since {t_in}us (last rollback at {last_rb}us) never had its after {dkey} delivered by {end_t}us"))
     # later events are still processed
     last_err_op = max([e["op"] for e in errors if e["op"] is not None], default=None)
     if last_err_op is not None and fin is not None and fin["status"] == "running":
